@@ -217,6 +217,28 @@ package table
 //@   props C19
 //@   trusted
 
+// (reading and decoding the footer and metaindex blocks is C13 material: left abstract here)
+//@ func (*Reader).readBlock
+//@   props C16
+//@   trusted
+// C16 (policy change): a table's filter block is probed with the policy it was written with: the policy the reader
+// keeps for a table is the one whose name was just compared with the name recorded in the table's metaindex
+// (string comparison itself is not modelled).
+//@ ghost var gNamed int
+//@ func NewReader
+//@   props C16
+//@   safety off
+//@   at before call filter.Filter.Name#1
+//@     ghost gNamed = recv
+//@   at before call filter.Filter.Name#2
+//@     ghost gNamed = recv
+//@   at before call (*Reader).readFilterBlock#1
+//@     assume [C16:filter-block-handle-from-the-checksummed-metaindex-is-sane] r.filterBH.length <= 1099511627776
+//@   at before stmt r.filter = f0#1
+//@     assert [C16:table-is-probed-with-the-policy-whose-name-was-just-compared] f0 == gNamed
+//@   at before stmt r.filter = f0#2
+//@     assert [C16:table-is-probed-with-the-policy-whose-name-was-just-compared] f0 == gNamed
+
 // C08 / C13: every data block a lookup reads is read with the reader's checksum setting (so that altered bytes are
 // reported, not served), whichever of the two places in find fetches it.
 //@ func (*Reader).find
